@@ -120,7 +120,7 @@ def enum_write(tier):
 def text_strategy(tier):
     alphabet = st.one_of(
         st.sampled_from(cp1252.ENCODABLE_CHARS),
-        st.sampled_from(cp1252.HIGH_CHARS),
+        st.sampled_from("0" + cp1252.HIGH_CHARS),
         st.characters(),  # all of Unicode, incl. NUL and surrogates
     )
     width = st.one_of(st.sampled_from(WIDTHS), st.integers(1, 300))
